@@ -352,6 +352,7 @@ struct LoadOutcome
   std::string cls;      // failed | object | exception | budget-mem
   std::string what;     // exception type/message
   std::unique_ptr<ASerializable> obj;
+  bool inherentCost = false; // a refused allocation was a cost inherent to the kind of object (reach probe)
 };
 
 // run the real loader on an image. mode 0: stream seam on the body; mode 1: path API on tag+body
@@ -392,6 +393,7 @@ LoadOutcome loadImage(const ClassAdapter& ad, const std::string& body, int mode,
   catch (const std::exception& e) { lo.cls = "exception"; lo.what = std::string("std::exception:") + noLine(firstWord(e.what())); }
   catch (...) { lo.cls = "exception"; lo.what = "unknown"; }
   if (memBudgetExceeded() && lo.cls != "exception") lo.cls = "budget-mem";
+  if (memBudgetInherent() && !memBudgetExceeded() && lo.cls == "exception" && lo.what == "std::bad_alloc") { lo.cls = "failed"; lo.inherentCost = true; }
   memBudgetStop();
   return lo;
 }
@@ -400,6 +402,7 @@ LoadOutcome loadImage(const ClassAdapter& ad, const std::string& body, int mode,
 void judgeSurvivor(const ClassAdapter& ad, LoadOutcome& lo, Ctx& c, const std::string& dmgName, const std::string& detailCtx)
 {
   const std::string P = "C09|";
+  if (lo.inherentCost) c.count("probe.allocation-inherent-to-object-kind-refused");
   if (lo.cls == "failed") { c.count("outcome.load-refused"); return; }
   if (lo.cls == "exception")
   {
